@@ -231,7 +231,10 @@ def check(ctx: Ctx):
     except (Undecided, AnchorMissing) as e:
         ctx.undecided("R18.6", None, None, "R18.6:check_subject_wiring", f"{type(e).__name__}: {e}")
     # the header is determined by the aggregator's own evaluator alone (no process-wide memo, R15.7)
-    from . import c03, c15
+    from . import c03, c15, c17
+
+    # "columns never shifted": rows are positional, a file is continued only under the identical header
+    c03._guarded(ctx, "R17.2", c17.check_header_rejection)
 
     c03._guarded(ctx, "R15.7", c15.check_globals)
 
